@@ -1,0 +1,129 @@
+//! Verification hooks for property C42 (compiled only with `--cfg libp2p_verif`).
+//!
+//! Declared as a child of `handler` because `RequestId` can only be constructed there.
+//! Every function only *calls* existing code (the `From`/`TryFrom` impls in `protocol.rs`
+//! are one-line wrappers around the private `req_msg_to_proto` / `resp_msg_to_proto` /
+//! `proto_to_req_msg` / `proto_to_resp_msg`, which in turn call `record_to_proto` /
+//! `record_from_proto`).
+
+use std::io;
+
+use libp2p_identity::PeerId;
+use libp2p_swarm::{ConnectionId, NetworkBehaviour};
+
+use super::{HandlerEvent, HandlerIn, RequestId, UniqueConnecId};
+use crate::{
+    behaviour::Behaviour,
+    proto,
+    protocol::{KadRequestMsg, KadResponseMsg},
+    record::{Record, store::RecordStore},
+};
+
+/// Feeds `HandlerEvent::PutRecord { record, .. }` from `source` into the behaviour, exactly as
+/// the connection handler would after decoding an inbound PUT_VALUE.
+pub fn inject_put_record<S>(
+    behaviour: &mut Behaviour<S>,
+    source: PeerId,
+    connection: ConnectionId,
+    record: Record,
+    request_no: u64,
+) where
+    S: RecordStore + Send + 'static,
+{
+    behaviour.on_connection_handler_event(
+        source,
+        connection,
+        HandlerEvent::PutRecord {
+            record,
+            request_id: RequestId {
+                connec_unique_id: UniqueConnecId(request_no),
+            },
+        },
+    )
+}
+
+/// Canonical one-token description of an event sent to the handler.
+pub fn handler_in_tag(ev: &HandlerIn) -> String {
+    match ev {
+        HandlerIn::PutRecordRes {
+            key,
+            value,
+            request_id,
+        } => format!(
+            "PutRecordRes:{}:{}:{}",
+            hex(key.as_ref()),
+            hex(value),
+            request_id.connec_unique_id.0
+        ),
+        HandlerIn::Reset(request_id) => format!("Reset:{}", request_id.connec_unique_id.0),
+        other => {
+            let s = format!("{other:?}");
+            let name: String = s
+                .chars()
+                .take_while(|c| c.is_ascii_alphanumeric())
+                .collect();
+            format!("Other:{name}")
+        }
+    }
+}
+
+fn hex(bs: &[u8]) -> String {
+    if bs.is_empty() {
+        return "-".into();
+    }
+    bs.iter().map(|b| format!("{b:02x}")).collect()
+}
+
+/// `record_to_proto(record).ttl` as reached from an outgoing PUT_VALUE request.
+pub fn req_record_ttl(record: Record) -> Option<u32> {
+    proto::Message::from(KadRequestMsg::PutValue { record })
+        .record
+        .map(|r| r.ttl)
+}
+
+/// `record_to_proto(record).ttl` as reached from an outgoing GET_VALUE response.
+pub fn resp_record_ttl(record: Record) -> Option<u32> {
+    proto::Message::from(KadResponseMsg::GetValue {
+        record: Some(record),
+        closer_peers: Vec::new(),
+    })
+    .record
+    .map(|r| r.ttl)
+}
+
+fn wire_record(key: Vec<u8>, value: Vec<u8>, ttl: u32) -> proto::Record {
+    proto::Record {
+        key,
+        value,
+        ttl,
+        ..proto::Record::default()
+    }
+}
+
+/// `record_from_proto` as reached from an inbound PUT_VALUE request carrying `ttl`.
+pub fn req_record_from_ttl(key: Vec<u8>, value: Vec<u8>, ttl: u32) -> io::Result<Option<Record>> {
+    let msg = proto::Message {
+        r#type: proto::MessageType::PutValue as i32,
+        key: key.clone(),
+        record: Some(wire_record(key, value, ttl)),
+        ..proto::Message::default()
+    };
+    Ok(match KadRequestMsg::try_from(msg)? {
+        KadRequestMsg::PutValue { record } => Some(record),
+        _ => None,
+    })
+}
+
+/// `record_from_proto` as reached from an inbound GET_VALUE response carrying `ttl`.
+pub fn resp_record_from_ttl(key: Vec<u8>, value: Vec<u8>, ttl: u32) -> io::Result<Option<Record>> {
+    let msg = proto::Message {
+        r#type: proto::MessageType::GetValue as i32,
+        key: key.clone(),
+        record: Some(wire_record(key, value, ttl)),
+        ..proto::Message::default()
+    };
+    Ok(match KadResponseMsg::try_from(msg)? {
+        KadResponseMsg::GetValue { record, .. } => record,
+        _ => None,
+    })
+}
